@@ -147,6 +147,69 @@ def judge(desc, spec):
     return j
 
 
+def dotted_names_scenario():
+    """name mode, config names with dots (exp.v1 / exp.v2), results that are files, directories and in-memory values: each task's
+    run info and log are those of ITS run"""
+    from pathlib import Path
+
+    from taskchain import Config, InMemoryData, Parameter, Task
+    from taskchain.data import DirData
+    from tcv import scratch
+
+    class F(Task):
+        class Meta:
+            parameters = [Parameter('p')]
+
+        def run(self, p) -> int:
+            self.logger.info(f'F with p={p}')
+            self.save_to_run_info({'p': p})
+            return p
+
+    class D(Task):
+        class Meta:
+            parameters = [Parameter('p')]
+
+        def run(self, p) -> DirData:
+            self.logger.info(f'D with p={p}')
+            self.save_to_run_info({'p': p})
+            d = self.get_data_object()
+            (d.dir / 'f.txt').write_text(str(p))
+            return d
+
+    class M(Task):
+        class Meta:
+            parameters = [Parameter('p')]
+            data_class = InMemoryData
+
+        def run(self, p) -> list:
+            self.logger.info(f'M with p={p}')
+            self.save_to_run_info({'p': p})
+            return [p]
+
+    out = []
+    root = scratch.fresh('c18d')
+    try:
+        chains = {}
+        for name, p in (('exp.v1', 1), ('exp.v2', 2), ('exp', 3)):
+            chains[name] = Config(Path(root) / 'data', name=name, data={'tasks': [F, D, M], 'p': p}).chain(parameter_mode=False)
+            for t in ('f', 'd', 'm'):
+                _ = chains[name][t].value
+        for name, p in (('exp.v1', 1), ('exp.v2', 2), ('exp', 3)):
+            for t in ('f', 'd', 'm'):
+                task = chains[name][t]
+                ri = task.run_info or {}
+                log = task.log or []
+                if ri.get('log') != [{'p': p}] or not any(l.endswith(f'with p={p}') for l in log) or any('with p=' in l and not l.endswith(f'with p={p}') for l in log):
+                    kind = {'f': 'file', 'd': 'directory', 'm': 'in-memory'}[t]
+                    out.append((f'name mode, dotted config names, {kind} result: run records are those of another config\'s run',
+                                f'config {name} (p={p}) task {t}: run info records {ri.get("log")}, parameters {ri.get("parameters")}, log {log}'))
+    except Exception as e:  # noqa
+        out.append(('name mode with dotted config names fails', f'{type(e).__name__}: {e}'))
+    finally:
+        scratch.drop(root)
+    return out
+
+
 def silent_rerun():
     """success, force, recomputation while logging is switched off process-wide: afterwards the log holds nothing of the older run"""
     import logging
@@ -214,6 +277,9 @@ def run(tier, seed):
     res.add('evaluations')
     for kind, msg in silent_rerun():
         res.violations.append(Violation(f'rec3: {kind}', msg, {'world': 'rec3', 'silent': True, 'hist': []}))
+    res.add('evaluations')
+    for kind, msg in dotted_names_scenario():
+        res.violations.append(Violation(f'dotted: {kind}', msg, {'world': 'dotted', 'dotted': True, 'hist': []}))
     res.coverage['traces_validated_against_impl'] = res.coverage['evaluations']
     res.coverage['exhaustive'] = True
     res.coverage['rule'] = ('every history over {new, value, task force, fail(task, raise|raise-after-logging|wrong-type)} in one process up to the stateless depth, merged BFS beyond; after every '
@@ -226,6 +292,8 @@ def replay(case):
     import tcv
 
     tcv.quiet_library()
+    if case.get('dotted'):
+        return [Violation(f'dotted: {k}', m, case) for k, m in dotted_names_scenario()]
     if case.get('silent'):
         return [Violation(f'rec3: {k}', m, case) for k, m in silent_rerun()]
     desc = WORLDS[case['world']]()
